@@ -81,9 +81,16 @@ def run(scn, stats):
     fo = refsem.FlowObserver(scn["ir"])
     q = Quiescence(fo.flow)
 
-    stop = None
-    defn, r = common.run(scn, stats, observers=[fo, q], post_poll=True)
+    # Known finding R1 makes the engine offer a join that is already running; from then on the provider holds two
+    # actions for one execution of the join and what the stale one's report does is a consequence of R1 (owned by
+    # C07): the run is checked up to that offer and abandoned (a late arrival alone does not end it).
+    dw = common.DupWatch()
+    stop = lambda rr: dw.dup  # noqa
+    defn, r = common.run(scn, stats, observers=[fo, dw, q], stop=stop, post_poll=True)
     flow = fo.flow
+    if dw.dup:
+        stats.excluded["R1"] += 1
+        return
     if scn.get("rerun") and r.engine_exception is None and not r.truncated and r.at_rest() and r.d.status() == "failed":
         if flow.unhandled and not flow.fail_cmd and not flow.runtime_error:
             try:
